@@ -3,6 +3,7 @@ from lib.prov import Prov, show, is_call, subterms
 from lib.guards import outcomes
 from lib.facts import callee_path
 from rules import structs_common as S
+from rules.c11 import check_is_empty, check_cbor_bstr
 from spec.rfc8152 import HELPERS, ROUTING, STRUCTURES
 
 REGISTER = True
@@ -39,80 +40,6 @@ FAMILIES = {
 }
 
 
-def abstract_structure(prog, key, depth=0):
-    """abstract tuple describing the structure a helper hands to the closure, read from the code:
-    (structure fn, context, body, sign, aad, payload) with self-forms and parameter positions normalised"""
-    f = prog.fn(key)
-    pv = Prov(f)
-    # direct structure call?
-    for sfn in STRUCTURES:
-        for bb, t in f.calls():
-            if callee_path(t) == sfn:
-                args = [pv.operand_term(a, bb, "term") for a in t["args"]]
-                return (sfn,) + tuple(_norm(a, f) for a in args)
-    if depth > 2:
-        return None
-    h = HELPERS.get(key)
-    hits = S.closure_call(f, pv)
-    if len(hits) != 1:
-        return None
-    tup = hits[0][2]
-    if tup[0] != "tuple" or not tup[1]:
-        return None
-    st = S.structure_arg(tup[1][-1])
-    if not is_call(st):
-        return None
-    inner = abstract_structure(prog, st[1], depth + 1)
-    if inner is None:
-        return None
-    # substitute the callee's parameters by this helper's actual (normalised) arguments
-    actual = [_norm(S.strip_ref(a), f) for a in st[2]]
-    return tuple(_subst(x, actual) for x in inner)
-
-
-def _norm(t, f):
-    """normalise self forms: (*self).x, self.0.x (by value or by ref) -> ('SELF', x); parameters -> ('P', i)"""
-    if not isinstance(t, tuple) or not t:
-        return t
-    if t in (("param", 0), ("deref", ("param", 0)), ("field", ("param", 0), "0"), ("field", ("deref", ("param", 0)), "0")):
-        return ("SELF",)
-    k = t[0]
-    if k == "param":
-        return ("P", t[1])
-    if k == "call":
-        name = t[1]
-        if name == "core::ops::index::Index::index":
-            return ("call", name, tuple(_norm(S.strip_ref(a), f) for a in t[2]))
-        return ("call", name, tuple(_norm(S.strip_ref(a), f) for a in t[2]))
-    if k == "aggr":
-        return ("aggr", t[1], t[2], tuple((n, _norm(x, f)) for n, x in t[3]))
-    if k in ("field", "variant"):
-        return (k, _norm(t[1], f), t[2])
-    if k in ("deref", "ref"):
-        return _norm(t[1], f)
-    if k == "tuple":
-        return ("tuple", tuple(_norm(x, f) for x in t[1]))
-    return t
-
-
-def _subst(t, actual):
-    if not isinstance(t, tuple) or not t:
-        return t
-    if t == ("SELF",):
-        return actual[0] if actual else t
-    if t[0] == "P":
-        return actual[t[1]] if t[1] < len(actual) else t
-    if t[0] == "call":
-        return ("call", t[1], tuple(_subst(a, actual) for a in t[2]))
-    if t[0] == "aggr":
-        return ("aggr", t[1], t[2], tuple((n, _subst(x, actual)) for n, x in t[3]))
-    if t[0] in ("field", "variant"):
-        return (t[0], _subst(t[1], actual), t[2])
-    if t[0] == "tuple":
-        return ("tuple", tuple(_subst(x, actual) for x in t[1]))
-    return t
-
-
 def _role_view(prog, key, tup):
     """replace parameter positions by their role names so create- and verify-side tuples are comparable"""
     f = prog.fn(key)
@@ -146,8 +73,8 @@ def check(ctx):
     for fam, (creates, verifies) in sorted(FAMILIES.items()):
         views = {}
         for k in creates + verifies:
-            a = abstract_structure(prog, k)
-            views[k] = _role_view(prog, k, a) if a else None
+            a = S.abstract_structure(prog, k)
+            views[k] = _role_view(prog, k, a[0]) if a else None
         vals = list(views.values())
         same = all(v is not None for v in vals) and all(v == vals[0] for v in vals)
         ctx.ob("R-1", "siblings:%s" % fam, same,
@@ -214,6 +141,9 @@ def check(ctx):
         st = {HELPERS[k]["stores"].split(".")[-1] for k in creates}
         vs = {HELPERS[k]["stored"].split(".")[-1] for k in verifies}
         ctx.ob("R-2", "same-field:%s" % fam, st == vs and len(st) == 1, "%s: stored field %s == verified field %s" % (fam, sorted(st), sorted(vs)))
+    # the protected slot really depends on the header: stored bytes, else empty iff ALL fields are empty, else the encoded map
+    check_cbor_bstr(ctx, "R-1")
+    check_is_empty(ctx, "R-1")
     # R-5
     statics = prog.d.get("statics", [])
     ctx.ob("R-5", "no-statics", not statics, "the crate defines no static items", detail={"statics": statics})
